@@ -107,6 +107,23 @@ type J8 struct {
 	C  complex64 `serix:"c,omitempty"`
 }
 
+// typed byte types held BY VALUE: a byte array type and byte slice types registered with an object code are written
+// (and read back) as the object {"type": code, <key>: "0x.."}; a named byte slice type without settings as a bare hex string
+type Blob []byte
+
+type Tag []byte
+
+type Plain []byte
+
+type J9 struct {
+	V  ID4    `serix:"v"`
+	BL Blob   `serix:"bl,lenPrefix=uint8"`
+	TG Tag    `serix:"tg,lenPrefix=uint8,omitempty"`
+	PL Plain  `serix:"pl,lenPrefix=uint8,minLen=1,maxLen=3"`
+	VS []ID4  `serix:"vs,lenPrefix=uint8"`
+	BS []Blob `serix:"bs,lenPrefix=uint8,omitempty"`
+}
+
 func key(s string) string { return "\"" + hex.EncodeToString([]byte(s)) }
 
 func fld(k, flag, ty string) string { return key(k) + " " + flag + " " + ty }
@@ -128,6 +145,8 @@ var (
 	sJ6     = st("-", fld("sh", "r", sShape), fld("shs", "r", "sl 0 0 "+sShape), fld("osh", "o", sShape))
 	sJ7     = st("-", fld("p", "r", "pharr "+key("id")))
 	sJ8     = st("-", fld("pu", "o", "uns"), fld("an", "o", "ifu"), fld("c", "o", "uns"))
+	sJ9     = st("-", fld("v", "r", "pharr "+key("v")), fld("bl", "r", "ohex "+key("bl")+" 1 3"), fld("tg", "o", "ohex "+key("tg")+" 0 0"), fld("pl", "r", "hex 1 3"),
+		fld("vs", "r", "sl 0 0 pharr "+key("id")), fld("bs", "o", "sl 0 0 ohex "+key("data")+" 1 3"))
 )
 
 type jtarget struct {
@@ -144,6 +163,8 @@ var jsonAPI = func() *serix.API {
 	must(api.RegisterTypeSettings(Square{}, serix.TypeSettings{}.WithObjectType(uint8(2))))
 	must(api.RegisterInterfaceObjects((*Shape)(nil), Circle{}, Square{}))
 	must(api.RegisterTypeSettings(ID4{}, serix.TypeSettings{}.WithObjectType(uint8(9)).WithFieldKey("id")))
+	must(api.RegisterTypeSettings(Blob{}, serix.TypeSettings{}.WithObjectType(uint8(11)).WithLengthPrefixType(serix.LengthPrefixTypeAsByte).WithMinLen(1).WithMaxLen(3)))
+	must(api.RegisterTypeSettings(Tag{}, serix.TypeSettings{}.WithObjectType(uint32(70000)).WithFieldKey("tag").WithLengthPrefixType(serix.LengthPrefixTypeAsByte)))
 
 	return api
 }()
@@ -257,6 +278,23 @@ var jtargets = []jtarget{
 	}},
 	{"J8", sJ8, func() any { return &J8{} }, func(rng *hx.Rng) any {
 		return map[string]any{}
+	}},
+	{"J9", sJ9, func() any { return &J9{} }, func(rng *hx.Rng) any {
+		v := &J9{BL: Blob(rbytes(rng, 1, 3)), PL: Plain(rbytes(rng, 1, 3)), VS: []ID4{}}
+		copy(v.V[:], rbytes(rng, 4, 4))
+		if rng.Bool() {
+			v.TG = Tag(rbytes(rng, 1, 5))
+		}
+		for i := rng.Range(0, 2); i > 0; i-- {
+			id := ID4{}
+			copy(id[:], rbytes(rng, 4, 4))
+			v.VS = append(v.VS, id)
+		}
+		for i := rng.Range(0, 2); i > 0; i-- {
+			v.BS = append(v.BS, Blob(rbytes(rng, 1, 3)))
+		}
+
+		return v
 	}},
 }
 
